@@ -35,7 +35,13 @@ REWARD = {
         ("minmax", [T(+1, {"reward"}, False, pred="cell", why="-max subtour length accumulated in _step")]),
         ("sum", [T(-1, {"locs"}, True, pred="closed-tour")]),
     ],
-    "MDCPDPEnv": [(None, [T(-1, {"current_length"}, False, pred="mdcpdp-modes")])],
+    "MDCPDPEnv": [
+        ("minmax", [T(-1, {"current_length"}, False, pred="max-last", why="longest per-depot route")]),
+        ("minsum", [T(-1, {"current_length"}, False, pred="sumfn-last", why="sum of the per-depot routes")]),
+        ("lateness", [T(-1, {"current_length"}, False, why="(1 - w) * total length"),
+                      T(+1, {"current_length", "lateness_weight"}, False),
+                      T(-1, {"arrivetime_record", "lateness_weight"}, False, why="w * lateness (arrival times of the delivery nodes)")]),
+    ],
     "MTVRPEnv": [(None, [T(-1, {"locs", "open_route"}, True, pred="mtvrp-open-route", why="open routes are not charged for the return leg")])],
     "SMTWTPEnv": [(None, [T(-1, {"job_due_time", "job_weight", "job_process_time"}, True, pred="weighted-tardiness")])],
     "FJSPEnv": [
